@@ -237,9 +237,9 @@ Theorem C11x_leaf_alt_empty : forall udiff F a b p1 p2,
 Proof. exact YProofsAtoms.diff_atomF_altL. Qed.
 Print Assumptions C11x_leaf_alt_empty.
 
-(* ... and it neither reports nor RAISES (leaf_ok: no date / timedelta under truncate_datetime, C11-TRUNC-DATE) *)
+(* ... and it neither reports nor RAISES (unconditional since /repo 1c8f0f8: a date / timedelta under truncate_datetime raised before) *)
 Theorem C11x_leaf_alt_ok : forall udiff F a b p1 p2,
-  YProofsAtoms.altL F a b = true -> YProofsAtoms.leaf_ok F a = true -> YModel.leafR udiff F a b p1 p2 = YModel.Ok [].
+  YProofsAtoms.altL F a b = true -> YModel.leafR udiff F a b p1 p2 = YModel.Ok [].
 Proof. exact YProofsAtoms.leafR_altL. Qed.
 Print Assumptions C11x_leaf_alt_ok.
 
@@ -302,8 +302,7 @@ Example C11x_monotone_instance :
   YProofsWitness.xrun YProofsWitness.xczip YProofsWitness.YFnew YProofsWitness.ym YProofsWitness.ym = YModel.Ok ([], []).
 Proof. exact YProofsWitness.y_monotone_instance. Qed.
 
-(* clause 3: under the boolean guard [safe] (no Enum member under use_enum_value, no nan under 0 digits, no date / timedelta
-   under truncate_datetime, no datetime type under ignore_numeric_type_changes, no datetime-type key when key cleaning meets
+(* clause 3: under the boolean guard [safe] (no Enum member under use_enum_value, no nan under 0 digits, no datetime type under ignore_numeric_type_changes, no datetime-type key when key cleaning meets
    a precision, no timedelta set member under a precision) the model never returns Err - for ALL values and options *)
 Theorem C11x_never_raises_partial :
   forall F c udiff ops t1 t2,
@@ -338,19 +337,13 @@ Theorem C11x_datetime_key_raises_refuted :
 Proof. exact YProofsWitness.x_datetime_key_raises_refuted. Qed.
 Print Assumptions C11x_datetime_key_raises_refuted.
 
-Theorem C11x_truncate_date_raises_refuted :          (* C11-TRUNC-DATE: a date against itself *)
-  exists a, YProofsAtoms.altL (YProofsWitness.XFtrunc UMinute) a a = true /\
-    YProofsWitness.xrun YProofsWitness.xcdef YModel.no_opts (YValue.VAtom a) (YValue.VAtom a) = YModel.Ok ([], []) /\
-    YProofsWitness.xrun YProofsWitness.xcdef (YProofsWitness.XFtrunc UMinute) (YValue.VAtom a) (YValue.VAtom a) = YModel.Err YModel.EType /\
-    YProofsAtoms.leaf_ok (YProofsWitness.XFtrunc UMinute) a = false.
-Proof. exact YProofsWitness.y_trunc_date_leaf_refuted. Qed.
-Print Assumptions C11x_truncate_date_raises_refuted.
-
-Theorem C11x_truncate_timedelta_raises_refuted :
-  exists a, YProofsWitness.xrun YProofsWitness.xcdef YModel.no_opts (YValue.VAtom a) (YValue.VAtom a) = YModel.Ok ([], []) /\
-    YProofsWitness.xrun YProofsWitness.xcdef (YProofsWitness.XFtrunc UMinute) (YValue.VAtom a) (YValue.VAtom a) = YModel.Err YModel.EAttr.
-Proof. exact YProofsWitness.y_trunc_td_leaf_refuted. Qed.
-Print Assumptions C11x_truncate_timedelta_raises_refuted.
+(* C11-TRUNC-DATE (fixed in /repo by 1c8f0f8, the model follows): under truncate_datetime a date / timedelta compares as without it *)
+Example C11x_truncate_date_fixed :
+  YProofsWitness.xrun YProofsWitness.xcdef (YProofsWitness.XFtrunc UMinute) (YValue.VAtom (YValue.ADate 2024 6 1)) (YValue.VAtom (YValue.ADate 2024 6 1)) = YModel.Ok ([], []) /\
+  YProofsWitness.xrun YProofsWitness.xcdef (YProofsWitness.XFtrunc UMinute) (YValue.VAtom (YValue.ATd 5000000)) (YValue.VAtom (YValue.ATd 5000000)) = YModel.Ok ([], []) /\
+  YProofsWitness.xrun YProofsWitness.xcdef (YProofsWitness.XFtrunc UMinute) (YValue.VAtom (YValue.ADate 2024 6 1)) (YValue.VAtom (YValue.ADate 2024 6 2))
+    = YModel.Ok ([YValue.mkEntry YValue.KValue [] [] (Some (YValue.VAtom (YValue.ADate 2024 6 1))) (Some (YValue.VAtom (YValue.ADate 2024 6 2))) None], []).
+Proof. exact YProofsWitness.y_trunc_date_fixed. Qed.
 
 Theorem C11x_timedelta_set_raises_refuted :          (* C11-SIG-TIMEDELTA-SET *)
   exists a, YProofsWitness.xrun YProofsWitness.xcdef YModel.no_opts (YValue.VSet [a]) (YValue.VSet [a]) = YModel.Ok ([], []) /\
